@@ -479,6 +479,56 @@ func TestC13AdTexts(t *testing.T) {
 	})
 }
 
+// TestC13ClaimIDs: structure-aware edits of well-formed claim identifiers, inheritance strings and addresses (IPv4,
+// IPv6 in brackets, with parameters): every prefix, every suffix, every single-character deletion, and every
+// insertion / replacement of one structural character ( # [ ] < > ? = ; " ) at every position, through every text parser.
+func TestC13ClaimIDs(t *testing.T) {
+	secret := strings.Repeat("0123456789abcdef", 4)
+	seeds := []string{
+		`<127.0.0.1:9618>#1700000000#7#[Encryption="YES";Integrity="YES";CryptoMethods="AES";ValidCommands="60011,421";]` + secret,
+		`<[::1]:9618>#1700000000#7#[Encryption="YES";CryptoMethods="AES";]` + secret,
+		`<[2620:0:1::5]:9618?sock=startd_1234&alias=h.example>#1700000001#12#[Encryption="NO";Integrity="NO";SessionExpires=1800000000;ShortVersion="25.4.0";]` + secret,
+		`<10.1.2.3:9618?addrs=10.1.2.3-9618+[--1]-9618&noUDP&sock=a_b>#1#2#` + secret,
+		`SessionKey:parent:1:2#[Encryption="YES";ValidCommands="60008,60011"]#0123456789abcdef FamilySessionKey:fam:3#[CryptoMethodsList="AES"]#fedcba9876543210`,
+		`4242 <[::1]:9618?sock=master_17> 0 0`,
+	}
+	structural := []byte("#[]<>?=;\"&: ")
+	bad := 0
+	n := 0
+	run := func(in string) {
+		for mode := 0; mode <= 12; mode++ {
+			n++
+			if n%kit.NShards() != kit.Shard() {
+				continue
+			}
+			if v := check("text", mode, []byte(in), true); v != "" && bad < 4 {
+				bad++
+				kit.Violation("C13", v, Case{Surface: "text", Mode: mode, Hex: fmt.Sprintf("%x", in)})
+				t.Errorf("C13 violated: %s (input %q)", v, in)
+			}
+		}
+	}
+	for _, sd := range seeds {
+		for i := 0; i <= len(sd); i++ {
+			run(sd[:i])
+			run(sd[i:])
+			if i < len(sd) {
+				run(sd[:i] + sd[i+1:])
+			}
+			if !kit.Thorough() && i%3 != 0 {
+				continue
+			}
+			for _, c := range structural {
+				run(sd[:i] + string(c) + sd[i:])
+				if i < len(sd) {
+					run(sd[:i] + string(c) + sd[i+1:])
+				}
+			}
+		}
+	}
+	ev.Exhaustive(fmt.Sprintf("%d well-formed claim ids / inheritance strings / addresses: every prefix, suffix, single deletion, and (quick: every third position) insertion or replacement of 13 structural characters, through 13 text parsers", len(seeds)))
+}
+
 // TestC13Text: text parsers on generated hostile strings.
 func TestC13Text(t *testing.T) {
 	pieces := []string{"<", ">", "127.0.0.1", ":", "9618", "?", "&", "=", "sock", "addrs", "ccbid", "#", "[", "]", ";", ",", "%", "%zz", "%41",
